@@ -60,6 +60,8 @@ type Spec struct {
 	Namespace string     `json:"namespace"`
 	Limiter   bool       `json:"limiter"`
 	Blobs     []BlobSpec `json:"blobs"`
+	// PeerID fixes the child's peer id (hex); random when empty.
+	PeerID string `json:"peer_id"`
 }
 
 type fakeMetaInfoClient struct {
@@ -159,6 +161,9 @@ func main() {
 	}
 
 	peerID, err := core.RandomPeerID()
+	if spec.PeerID != "" {
+		peerID, err = core.NewPeerID(spec.PeerID)
+	}
 	if err != nil {
 		fatal("peer id: %v", err)
 	}
